@@ -63,21 +63,15 @@ theorem init_peers (p : Nat) :
   · simp
   · simp
 
-theorem sendingChanged_fields (c : Client.State) (p : Nat) (st : Sending) :
-    (Client.sendingChanged c p st).tasks = c.tasks ∧
-    (Client.sendingChanged c p st).wantlist = c.wantlist ∧
-    (Client.sendingChanged c p st).deadline = c.deadline ∧
-    (Client.sendingChanged c p st).runq = c.runq ∧
-    (Client.sendingChanged c p st).queue = c.queue ∧
-    (((Client.sendingChanged c p st).peers[p]?).getD {}).sendFull = ((c.peers[p]?).getD {}).sendFull ∧
-    (((Client.sendingChanged c p st).peers[p]?).getD {}).wl = ((c.peers[p]?).getD {}).wl := by
-  unfold Client.sendingChanged
-  cases h : c.peers[p]? with
-  | none => simp [h]
-  | some ps =>
-    dsimp only
-    rw [Server.kmap_get_insert, if_pos rfl]
-    exact ⟨rfl, rfl, rfl, rfl, rfl, rfl, rfl⟩
+theorem sendingChanged_fields (c : Client.State) (p src : Nat) (st : Sending) :
+    (Client.sendingChanged c p src st).tasks = c.tasks ∧
+    (Client.sendingChanged c p src st).wantlist = c.wantlist ∧
+    (Client.sendingChanged c p src st).deadline = c.deadline ∧
+    (Client.sendingChanged c p src st).runq = c.runq ∧
+    (Client.sendingChanged c p src st).queue = c.queue ∧
+    (((Client.sendingChanged c p src st).peers[p]?).getD {}).sendFull = ((c.peers[p]?).getD {}).sendFull ∧
+    (((Client.sendingChanged c p src st).peers[p]?).getD {}).wl = ((c.peers[p]?).getD {}).wl :=
+  ClientSending.sendingChanged_fields c p src st
 
 end PB
 
@@ -245,9 +239,9 @@ theorem meas_deliverAB (s : State) (hb : BInv s) :
     exact ⟨Meas.le_refl _, fun h => absurd rfl h⟩
   | cons m rest =>
     obtain ⟨f1, _, f3, _, _, _, _, f8⟩ := deliverAB_frame s m rest hw
-    obtain ⟨g1, g2, g3, _, _, g6, g7⟩ := PB.sendingChanged_fields s.a.client 1 .ready
+    obtain ⟨g1, g2, g3, _, _, g6, g7⟩ := PB.sendingChanged_fields s.a.client 1 1 .ready
     have ha : (step s .deliverAB).a =
-        { s.a with client := Client.sendingChanged s.a.client 1 .ready } := f8
+        { s.a with client := Client.sendingChanged s.a.client 1 1 .ready } := f8
     have hlt : (meas (step s .deliverAB)).lt (meas s) := by
       have c1 : (meas (step s .deliverAB)).c1 = (meas s).c1 := by
         simp only [meas, ha, f3, g1]
